@@ -170,11 +170,42 @@ static void proj_lists(void) {
 		t_bidib_board_features_query f = bidib_get_board_features(q.ids[i]);
 		fputs(",\"features\":[", vout);
 		for (size_t j = 0; j < f.length; j++) fprintf(vout, "%s[%u,%u]", j ? "," : "", f.features[j].number, f.features[j].value);
-		fputs("]}", vout);
+		fputs("]", vout);
 		bidib_free_board_features_query(f);
+		/* reverse look-ups: board id and address by unique id, unique id by address (asked only for a connected board) */
+		t_bidib_unique_id_query u = bidib_get_uniqueid(q.ids[i]);
+		if (u.known) {
+			t_bidib_id_query bi = bidib_get_board_id(u.unique_id);
+			t_bidib_node_address_query na = bidib_get_nodeaddr_by_uniqueid(u.unique_id);
+			fprintf(vout, ",\"byuid\":{\"idk\":%u,\"id\":", BV(bi.known)); p_sid(bi.id);
+			fprintf(vout, ",\"ak\":%u,\"addr\":[%u,%u,%u]}", BV(na.known_and_connected), BV(na.known_and_connected) ? na.address.top : 0,
+			        BV(na.known_and_connected) ? na.address.sub : 0, BV(na.known_and_connected) ? na.address.subsub : 0);
+			bidib_free_id_query(bi);
+		} else fputs(",\"byuid\":{\"idk\":255,\"id\":\"<null>\",\"ak\":255,\"addr\":[0,0,0]}", vout);
+		t_bidib_node_address_query a2 = bidib_get_nodeaddr(q.ids[i]);
+		if (a2.known_and_connected) {
+			t_bidib_unique_id_query u2 = bidib_get_uniqueid_by_nodeaddr(a2.address);
+			fprintf(vout, ",\"uidbyaddr\":{\"k\":%u,\"uid\":[%u,%u,%u,%u,%u,%u,%u]}", BV(u2.known), u2.known ? u2.unique_id.class_id : 0, u2.known ? u2.unique_id.class_id_ext : 0,
+			        u2.known ? u2.unique_id.vendor_id : 0, u2.known ? u2.unique_id.product_id1 : 0, u2.known ? u2.unique_id.product_id2 : 0,
+			        u2.known ? u2.unique_id.product_id3 : 0, u2.known ? u2.unique_id.product_id4 : 0);
+		} else fputs(",\"uidbyaddr\":{\"k\":255,\"uid\":[]}", vout);
+		fputc('}', vout);
 	}
 	fputs("]", vout);
 	bidib_free_id_list_query(q);
+	/* look-ups with keys nobody has */
+	{
+		t_bidib_unique_id_mod nu = {0xEE, 0xEE, 0xEE, 0xEE, 0xEE, 0xEE, 0xEE};
+		t_bidib_id_query bi = bidib_get_board_id(nu);
+		t_bidib_node_address_query na = bidib_get_nodeaddr_by_uniqueid(nu);
+		t_bidib_node_address noaddr = {251, 251, 251};
+		t_bidib_unique_id_query u2 = bidib_get_uniqueid_by_nodeaddr(noaddr);
+		t_bidib_dcc_address nd = {0xFF, 0xFF};
+		t_bidib_id_query ti = bidib_get_train_id(nd);
+		fprintf(vout, ",\"unknown\":{\"idk\":%u,\"idnull\":%d,\"ak\":%u,\"uk\":%u,\"tk\":%u,\"tnull\":%d}", BV(bi.known), bi.id == NULL,
+		        BV(na.known_and_connected), BV(u2.known), BV(ti.known), ti.id == NULL);
+		bidib_free_id_query(bi); bidib_free_id_query(ti);
+	}
 	/* per train */
 	q = bidib_get_trains();
 	fputs(",\"pertrain\":[", vout);
@@ -183,7 +214,13 @@ static void proj_lists(void) {
 		fputs("{\"id\":", vout); p_sid(q.ids[i]); fputc(',', vout);
 		p_idlist("peripherals", bidib_get_train_peripherals(q.ids[i]));
 		t_bidib_dcc_address_query d = bidib_get_train_dcc_addr(q.ids[i]);
-		fprintf(vout, ",\"known\":%u,\"dcc\":[%u,%u]}", BV(d.known), d.known ? d.dcc_address.addrl : 0, d.known ? d.dcc_address.addrh : 0);
+		fprintf(vout, ",\"known\":%u,\"dcc\":[%u,%u]", BV(d.known), d.known ? d.dcc_address.addrl : 0, d.known ? d.dcc_address.addrh : 0);
+		if (d.known) {
+			t_bidib_id_query ti = bidib_get_train_id(d.dcc_address);
+			fprintf(vout, ",\"idbydcc\":{\"k\":%u,\"id\":", BV(ti.known)); p_sid(ti.id); fputc('}', vout);
+			bidib_free_id_query(ti);
+		} else fputs(",\"idbydcc\":{\"k\":255,\"id\":\"<null>\"}", vout);
+		fputc('}', vout);
 	}
 	fputs("]", vout);
 	bidib_free_id_list_query(q);
